@@ -28,6 +28,8 @@ func init() {
 		Run:        runC13})
 
 	addSelfTests("C03",
+		mutation{"downward-early-return-restructured", "chord/local_chord.go", "	values, err := n.kv.Export(ctx, keys)\n	if err != nil {\n		return err\n	}\n\n	// TODO: split into batches\n	if err := successor.Import(ctx, keys, values); err != nil {\n		return fmt.Errorf(\"storing KV to successor: %w\", err)\n	}", "	values, exportErr := n.kv.Export(ctx, keys)\n	if exportErr != nil {\n		return exportErr\n	}\n\n	importErr := successor.Import(ctx, keys, values)\n	if importErr != nil {\n		return fmt.Errorf(\"storing KV to successor: %w\", importErr)\n	}", "!transfer-order"},
+		mutation{"upward-remove-error-returned", "chord/local_chord.go", "	if err := n.kv.RemoveKeys(ctx, keys); err != nil {\n		n.logger.Error(\"Failed to remove keys from KV\", zap.Error(err))\n	}\n	return\n}", "	if rmErr := n.kv.RemoveKeys(ctx, keys); rmErr != nil {\n		n.logger.Error(\"Failed to remove keys from KV\", zap.Error(rmErr))\n	}\n	return nil\n}", "!transfer-order"},
 		mutation{"remove-before-import-checked", "chord/local_chord.go", "	err = newPredecessor.Import(ctx, keys, values)\n	if err != nil {\n		return\n	}\n", "	err = newPredecessor.Import(ctx, keys, values)\n", "transfer-order"},
 		mutation{"downward-import-error-dropped", "chord/local_chord.go", "		return fmt.Errorf(\"storing KV to successor: %w\", err)", "		n.logger.Error(fmt.Sprintf(\"storing KV to successor: %v\", err))", "transfer-order"},
 		mutation{"joined-before-transfer", "chord/local_membership.go", "	if err := n.transferKeysUpward(ctx, prevPredecessor, joiner); err != nil {\n		return nil, nil, chord.ErrJoinTransferFailure\n	}\n	joined = true", "	joined = true\n	if err := n.transferKeysUpward(ctx, prevPredecessor, joiner); err != nil {\n		return nil, nil, chord.ErrJoinTransferFailure\n	}", "publish-after-transfer"},
@@ -197,14 +199,36 @@ func runC03(c *Ctx) {
 				return false
 			})
 		}
+		// one key slice flows through all four steps: the variable (a single RangeKeys
+		// result) Export, Import and RemoveKeys are given is the same object
+		var keyVar *types.Var
+		sameSlice := func(e ast.Expr) bool {
+			v := fn.varOf(e)
+			if v == nil {
+				return false
+			}
+			if keyVar == nil {
+				keyVar = v
+			}
+			if v != keyVar {
+				return false
+			}
+			n := 0
+			for _, d := range fn.defsOf(v) {
+				if d.rhs != nil {
+					n++
+				}
+			}
+			return n == 1
+		}
 		for _, call := range ex {
 			c.Ob("transfer-order", name+"#Export-after-RangeKeys-ok", call.Pos(), isOK(fn.FactsAt(call), rk), "Export runs only after RangeKeys succeeded")
-			c.Ob("same-keys", name+"#Export(keys)", call.Pos(), len(call.Args) == 2 && strings.HasSuffix(fn.Prov(call.Args[1]), ".RangeKeys()#0"), "Export is given the key slice RangeKeys returned; found "+fn.Prov(call.Args[1]))
+			c.Ob("same-keys", name+"#Export(keys)", call.Pos(), len(call.Args) == 2 && strings.HasSuffix(fn.Prov(call.Args[1]), ".RangeKeys()#0") && sameSlice(call.Args[1]), "Export is given the key slice RangeKeys returned; found "+fn.Prov(call.Args[1]))
 		}
 		for _, call := range im {
 			fs := fn.FactsAt(call)
 			c.Ob("transfer-order", name+"#Import-after-Export-ok", call.Pos(), isOK(fs, ex) && isOK(fs, rk), "the peer Import runs only after RangeKeys and Export succeeded")
-			okArgs := len(call.Args) == 3 && strings.HasSuffix(fn.Prov(call.Args[1]), ".RangeKeys()#0") && strings.HasSuffix(fn.Prov(call.Args[2]), ".Export()#0")
+			okArgs := len(call.Args) == 3 && strings.HasSuffix(fn.Prov(call.Args[1]), ".RangeKeys()#0") && sameSlice(call.Args[1]) && strings.HasSuffix(fn.Prov(call.Args[2]), ".Export()#0")
 			c.Ob("same-keys", name+"#Import(keys,values)", call.Pos(), okArgs, "the peer imports exactly the selected keys with their exported values")
 			se := call.Fun.(*ast.SelectorExpr)
 			c.Ob("same-keys", name+"#Import-target", call.Pos(), strings.HasPrefix(fn.Prov(se.X), "param#"), "the import goes to the peer passed by the caller (new predecessor / successor); found "+fn.Prov(se.X))
@@ -212,7 +236,7 @@ func runC03(c *Ctx) {
 		for _, call := range rm {
 			fs := fn.FactsAt(call)
 			c.Ob("transfer-order", name+"#RemoveKeys-after-Import-ok", call.Pos(), isOK(fs, im), "local copies are removed only on the success edge of the peer's Import")
-			c.Ob("same-keys", name+"#RemoveKeys(keys)", call.Pos(), len(call.Args) == 2 && strings.HasSuffix(fn.Prov(call.Args[1]), ".RangeKeys()#0"), "exactly the imported keys are removed; found "+fn.Prov(call.Args[1]))
+			c.Ob("same-keys", name+"#RemoveKeys(keys)", call.Pos(), len(call.Args) == 2 && strings.HasSuffix(fn.Prov(call.Args[1]), ".RangeKeys()#0") && sameSlice(call.Args[1]), "exactly the imported keys are removed; found "+fn.Prov(call.Args[1]))
 		}
 		// a failed step reaches the caller
 		named := namedErrResult(fn)
